@@ -267,8 +267,9 @@ def rule_motor_law(cx, rid="C19-MOTOR-LAW"):
     from . import c04
     m = mod(CLASSES["DCMotor"])
     r = cx.rule(rid, "DCMotor, from every state of {speed -1,-0.5,0,0.5,1} x inverted x mode and for every command/argument of a grid: |speed|<=1, applied = +-speed, mode = drive iff applied != 0 else brake after stop/run_for and coast otherwise, invert twice is the identity, ramp ends on the clamped target after exactly 20 monotone steps with 20 waits of duration/20 (never longer than the duration), run_for waits exactly once and ends braked, a raising call leaves the object unchanged", floor=400, exhaustive=True)
-    cmds = [("set_speed", [v_]) for v_ in (-2, -1, -0.5, 0, 0.5, 1, 3, True)] + [("backward", [v_]) for v_ in (0, 0.5, 1, -0.5, 2)] + [("backward", [])] + \
-           [("stop", []), ("coast", []), ("invert", [])] + [("ramp", [t_, d_]) for t_ in (-2, -0.5, 0, 0.5, 1) for d_ in (0, 100, 1000, -1)] + \
+    # (values far below one PWM count and just off the boundaries: a law decided on the rounded duty is not the law on the speed)
+    cmds = [("set_speed", [v_]) for v_ in (-2, -1, -0.5, 0, 0.5, 1, 3, True, 0.001, -0.0019, 1e-9, 0.0039, 0.999999, -1.000001)] + [("backward", [v_]) for v_ in (0, 0.5, 1, -0.5, 2, 0.0019, 1e-7)] + [("backward", [])] + \
+           [("stop", []), ("coast", []), ("invert", [])] + [("ramp", [t_, d_]) for t_ in (-2, -0.5, 0, 0.5, 1, 0.001) for d_ in (0, 100, 1000, -1)] + \
            [("run_for", [d_, v_]) for v_ in (-1, 0, 0.5) for d_ in (0, 250, -5)]
     attrs = ("_speed", "_applied_speed", "_mode", "_inverted")
     n_bad = 0
